@@ -25,7 +25,7 @@ ASSUMPTIONS = ['refjs decides the lexical goal from the grammar position (InputE
                'PrimaryExpression may start); only inputs refjs accepts are judged']
 BUDGET_S = {'quick': 75, 'thorough': 900}
 REQUIRED_HITS = ['Lexer._token', 'slash_compared']
-FLOOR = {'quick': 2000, 'thorough': 30000}
+FLOOR = {'quick': 2000, 'thorough': 8000}
 
 PRE = [
     ('if_header', 'if (a)@%'), ('for_header', 'for (;;)@%'), ('forin_header', 'for (k in o)@%'),
